@@ -116,3 +116,90 @@ Print Assumptions C15_d15_outside_guard.
 Theorem C15_guard_computable : forall cy s, strict_clash cy s = false <-> strict_no_clash cy s.
 Proof. exact strict_clash_iff. Qed.
 Print Assumptions C15_guard_computable.
+
+(* F-C15-tzlocal-range: the decision table when tz.tzlocal can fail (parse/Local.v).  build_tzaware_lz is
+   _build_tzaware with the OverflowError of tzlocal.tzname() on the local-zone row; spec_zone_lz is spec_zone
+   with that row answering OverflowError when tzlocal_raises holds; guard = tzlocal_raises false *)
+From V Require Import parse.Local parse.LocalThm.
+
+Theorem C15_tz_cascade_lz : forall o lz naive cy r0 r,
+  validate cy r0 = Ok r -> r_tzname r0 <> Some [] ->
+  build_tzaware_lz o lz naive r =
+  of_zres o (spec_zone_lz (o_tzinfos o) (o_local o) (o_nm0 o || o_nm1 o) (tzlocal_raises lz naive)
+                          (r_tzname r0) (r_tzoffset r0) false).
+Proof. exact tz_cascade_lz_lemma. Qed.
+Print Assumptions C15_tz_cascade_lz.
+
+Theorem C15_spec_zone_lz_guarded : forall ti loc lm n off pf,
+  spec_zone_lz ti loc lm false n off pf = spec_zone ti loc lm n off pf.
+Proof. exact spec_zone_lz_no_raise. Qed.
+Print Assumptions C15_spec_zone_lz_guarded.
+
+Theorem C15_spec_zone_lz_refuted : forall ti loc lm n off pf w,
+  spec_zone ti loc true n off pf = ZR ZLocal w -> spec_zone_lz ti loc lm true n off pf = ZROverflow.
+Proof. exact spec_zone_lz_raise. Qed.
+Print Assumptions C15_spec_zone_lz_refuted.
+
+(* ------------------------------------------------------------------------------------------------
+   Model <-> source (iso builder, notes/parse_gen.md).  coq/gen/ParseGen.v is regenerated from
+   /repo/src/dateutil/parser/_parser.py by the fail-closed translator harness/gen_parse.py on every run; each
+   translated function equals the corresponding function of the hand model for all inputs (parse/ParseGenThm*.v;
+   statements in parse/ParseGenProps.v).  The untranslated parts of _parser.py are pinned by AST hash in the translator:
+   any edit of them, or a translated function whose meaning changes, makes these theorems fail. *)
+From V Require Import parse.ParseGenLib gen.ParseGen parse.ParseGenThm parse.ParseGenThm2 parse.ParseGenProps.
+
+Theorem C15_gen_parserinfo_lookups : gen_parserinfo_lookups_stmt.
+Proof. exact gen_parserinfo_lookups. Qed.
+Print Assumptions C15_gen_parserinfo_lookups.
+
+Theorem C15_gen_convertyear : gen_convertyear_stmt.
+Proof. exact pg_convertyear_eq. Qed.
+Print Assumptions C15_gen_convertyear.
+
+Theorem C15_gen_validate : gen_validate_stmt.
+Proof. exact pg_validate_eq. Qed.
+Print Assumptions C15_gen_validate.
+
+Theorem C15_gen_could_be_day : gen_could_be_day_stmt.
+Proof. exact pg_could_be_day_eq. Qed.
+Print Assumptions C15_gen_could_be_day.
+
+Theorem C15_gen_resolve_ymd : gen_resolve_ymd_stmt.
+Proof. exact pg_resolve_ymd_eq. Qed.
+Print Assumptions C15_gen_resolve_ymd.
+
+Theorem C15_gen_append : gen_append_stmt.
+Proof. exact gen_append. Qed.
+Print Assumptions C15_gen_append.
+
+Theorem C15_gen_ampm : gen_ampm_stmt.
+Proof. exact gen_ampm. Qed.
+Print Assumptions C15_gen_ampm.
+
+Theorem C15_gen_could_be_tzname : gen_could_be_tzname_stmt.
+Proof. exact pg_could_be_tzname_eq. Qed.
+Print Assumptions C15_gen_could_be_tzname.
+
+Theorem C15_gen_parse_min_sec : gen_parse_min_sec_stmt.
+Proof. exact pg_parse_min_sec_eq. Qed.
+Print Assumptions C15_gen_parse_min_sec.
+
+Theorem C15_gen_parsems : gen_parsems_stmt.
+Proof. exact pg_parsems_eq. Qed.
+Print Assumptions C15_gen_parsems.
+
+Theorem C15_gen_assign_hms : gen_assign_hms_stmt.
+Proof. exact pg_assign_hms_eq. Qed.
+Print Assumptions C15_gen_assign_hms.
+
+Theorem C15_gen_find_hms_idx : gen_find_hms_idx_stmt.
+Proof. exact pg_find_hms_idx_eq. Qed.
+Print Assumptions C15_gen_find_hms_idx.
+
+Theorem C15_gen_parse_hms : gen_parse_hms_stmt.
+Proof. exact pg_parse_hms_eq. Qed.
+Print Assumptions C15_gen_parse_hms.
+
+Theorem C15_gen_parse_numeric_token : gen_parse_numeric_stmt.
+Proof. exact pg_parse_numeric_eq. Qed.
+Print Assumptions C15_gen_parse_numeric_token.
